@@ -41,7 +41,7 @@ TCbRun       == IsEvent("CbRun") /\ CbRun(ev.i) /\ Obs /\ UNCHANGED rtlast
 (* lifetime; events carry the wall-clock time in ms.  Only what is robust against scheduling jitter is   *)
 (* asserted: a data set well inside the lifetime after the latest (re)transmission is accepted, one well *)
 (* after it is rejected; in between either answer is allowed.                                           *)
-RTSlack == 350
+RTSlack == 600
 RTTtl == 1000
 TRTemplate == /\ IsEvent("RTemplate") /\ ev.ok
               /\ rtlast' = [rtlast EXCEPT ![ev.k] = ev.ms]
